@@ -36,7 +36,7 @@ MANIFEST = dict(
          "predicates judge every token of real runs (real engine, real Waiter, config decoded by cli.readConfig incl. "
          "the discard_overflow default) from two stamps that bracket the Waiter's clock reading, so a scheduling delay "
          "can only relax a rule, never break it.",
-    note="bounds: 3-4 tokens, gaps {0,1,3,5,30} ticks, responses {0,5,25,35} ticks, <= 2 instances, lazy-tick budget 2 (22 in "
+    note="bounds: 3-4 tokens, gaps {0,1,3,5,30} ticks, responses {0,5,25,35} ticks, <= 2 instances (3 in thorough), lazy-tick budget 2 (22 in "
          "thorough); real time: scripts <= 8 s, 100 ms tick; trusted: the recording mocks (Schedule wrapper, gun, "
          "aggregator) and goroutine-id tagging; `>=` vs `>` at exactly 2.000000 s is not observable in real time "
          "(decided at design level only).",
